@@ -443,6 +443,13 @@ func (v *Env) eval(x Expr) *Val {
 			// identical(a, b): identical values (SMT equality; for floats: the same IEEE datum, NaN included, +0 and -0 distinct)
 			a, b := v.eval(x.Args[0]), v.eval(x.Args[1])
 			return &Val{typ: tBool, c: []string{v.equal(a, b)}}
+		case "funcref":
+			// funcref("pkg/path.Func"): the function constant, as the encoding represents a reference to that function
+			ts, ok := x.Args[0].(*EStr)
+			if !ok {
+				panic("contract: funcref(\"pkg.Func\")")
+			}
+			return &Val{typ: types.NewSignatureType(nil, nil, nil, nil, nil, false), c: []string{app("box", e.declare("fn!"+ts.S, "Int"))}}
 		case "bytesEq":
 			// bytesEq(b, "literal"): the byte slice holds exactly the literal's bytes
 			b := v.eval(x.Args[0])
